@@ -85,6 +85,29 @@ CLAIMED = {
             "trusted: pyvc, z3, cvc5",
             "contract-based deductive verification: VCs generated from the AST of the real functions and their SQL text, "
             "discharged by z3 / cvc5"),
+    "C18": ("proof",
+            "Data structure against an abstract view: a symbolic heap of containers (identity -> key -> presence / kind / "
+            "text / member list / position). Every operation of the real FIXContainer - set, [] =, get, [], in, is_group, "
+            "del, add_group (container / dict / wrong item, any index), set_group (any number of items, by loop "
+            "invariant; dict items for two), get_group_list, get_group_by_index, get_group_by_tag (first match, by loop "
+            "invariant) - is executed on a container in an arbitrary well-formed state with arbitrary arguments (tags "
+            "spelled as int, any str, FTag member, float; values str / int / float / enum) and proved against the "
+            "whole-view postcondition: result or documented error, the new view at the canonical key of the tag, "
+            "position kept or appended, refusals leave everything unchanged, every other key / container unchanged "
+            "(probe keys), representation invariant preserved. Five genuine defects repaired (fix: da745a0 tag spellings "
+            "'035' / 35 were different entries, 307f831 group setters accepted non-integer tags, 1b0576e equality by "
+            "string rendering, d43e63b / 42f2ef0 dict equality looked up framing tags / raw spellings). Equality, "
+            "query(), __str__ and pickle are covered only by the bounded reference-model part (labelled bounded).",
+            "DESIGN.md 4/C18 and 9",
+            "bounded, not proved: equality / query / pickle / rendering (reference-model walk: all op sequences of length "
+            "2 over a reduced alphabet + 3000 seeded random sequences of length 12, thorough 3 / 20000 x 16); assumed: "
+            "A-IND (induction over the operation sequence not mechanised), A-HEAP (dict / list semantics of the heap "
+            "model), A-CANON / A-FLOATSTR (int() / str() facts, uninterpreted otherwise), unspecified corners left open "
+            "(out-of-range insertion index, negative lookup index, del of a missing tag); refutations are replayed by "
+            "searching a failing operation sequence on the real container; trusted: pyvc, z3",
+            "contract-based deductive verification (representation invariant + whole-view postconditions over a symbolic "
+            "heap, loop invariants): VCs from the AST of the real methods, discharged by z3; bounded reference-model "
+            "comparison for equality / query / pickle"),
     "C17": ("proof",
             "Deductive proof of the class invariant K (status always a member of the enum; an order that says it can be "
             "cancelled / replaced has no request outstanding; a request id is remembered only while pending or after the "
